@@ -559,6 +559,26 @@ def calls_outside(p, name_suffix, window="process_send"):
     return out
 
 
+def own_effect_indices(p, nested=("process_send_", "send_stored")):
+    """Indices of the effects that are the explored handler's own work: made in its body or in private helpers it delegates
+    to, but not inside a nested send handler / send_stored (whose emissions are judged by their own rules)."""
+    out = set()
+    stack = []
+    depth = 0
+    for i, e in enumerate(p.effects):
+        if e[0] == "enter":
+            nm = e[1].split("::")[-1]
+            w = any(nm.startswith(x) if x.endswith("_") else nm == x for x in nested)
+            stack.append(w)
+            depth += 1 if w else 0
+        elif e[0] == "exit":
+            if stack:
+                depth -= 1 if stack.pop() else 0
+        elif depth == 0:
+            out.add(i)
+    return out
+
+
 # ----------------------------------------------------------------- who-may-write (helper-transitive)
 def owner_name(g):
     """Function a body is attributed to: closures count as their enclosing function."""
